@@ -119,12 +119,19 @@ func runCover(file string, timeoutS int, seed int, deep bool) SolveResult {
 func discharge(file string, timeoutS int, seed int, all bool) (SolveResult, []SolveResult) {
 	var tried []SolveResult
 	if !all {
-		r := runSolver(solvers[0], file, timeoutS, seed)
+		// a short first slice for the primary solver (almost every obligation is decided within it); whatever is
+		// still open is raced by all solvers and variants with the full timeout each, so that an obligation one
+		// configuration needs 8 s for does not depend on that configuration alone
+		first := 3
+		if timeoutS < first {
+			first = timeoutS
+		}
+		r := runSolver(solvers[0], file, first, seed)
 		tried = append(tried, r)
 		if r.Verdict == "unsat" || r.Verdict == "sat" {
 			return r, tried
 		}
-		tried = append(tried, race(file, timeoutS, seed, append(append([]solverSpec{}, solvers[1:]...), variants...), true)...)
+		tried = append(tried, race(file, timeoutS, seed, append(append([]solverSpec{}, solvers...), variants...), true)...)
 	} else {
 		cross := timeoutS / 4
 		if cross < 10 {
